@@ -71,7 +71,7 @@ fn main() {
                 (Some("alistsim"), _) => c08::replay(&body, path),
                 (Some("ffisim"), _) => c19::replay(&body, path),
                 (Some("clisim"), _) => c20::replay(&body, path),
-                (Some("parsim"), _) | (Some("parsim-peg"), _) => c16::replay(&body, path),
+                (Some("parsim"), _) | (Some("parsim-peg"), _) | (Some("parsim-mn-sweep"), _) => c16::replay(&body, path),
                 (Some("bersim"), Some("C12")) => {
                     campaign::replay_file(&body, path, &|c, o| c12::oracle_c12(c, o))
                 }
